@@ -916,7 +916,7 @@ class AlterTable:
                     "value": value or p[0]["default"].get("value"),
                 }
             )
-        if "constraint" in p[3]:
+        if len(p) > 3 and isinstance(p[3], dict) and "constraint" in p[3]:
             p[0]["default"]["constraint_name"] = p[3]["constraint"]["name"]
 
     def p_alter_check(self, p: List) -> None:
